@@ -20,10 +20,114 @@ func cp(b []byte) []byte {
 	return o
 }
 
+// Memory layouts of the objects handed to the library.  A caller may legitimately keep all byte fields of a
+// message in one buffer and all transforms of an SA in one pool: the library may read them, but what it emits
+// must not depend on where they live.  Layout is chosen per built object from its content, so that a case is
+// reproducible; LayoutForce (>= 0) pins it (tests of the harness itself).
+const (
+	LayoutPrivate = iota // every field its own exact-capacity allocation
+	LayoutArena          // all byte fields are consecutive views of ONE array (capacity runs into the next field);
+	//                      transform lists of an SA are views of ONE pool grouped by transform type
+	LayoutSpare //          every slice has private spare capacity filled with a marker
+	nLayouts
+)
+
+var LayoutForce = -1
+
+type arena struct {
+	mode int
+	buf  []byte
+	tp   map[uint8][]*message.Transform // per transform type pool (LayoutArena)
+}
+
+func newArena(mode int, size int) *arena {
+	a := &arena{mode: mode % nLayouts}
+	if LayoutForce >= 0 {
+		a.mode = LayoutForce
+	}
+	if a.mode == LayoutArena {
+		a.buf = make([]byte, 0, size+16)
+		a.tp = map[uint8][]*message.Transform{}
+	}
+	return a
+}
+
+func (a *arena) bytes(b []byte) []byte {
+	if len(b) == 0 {
+		return nil
+	}
+	switch a.mode {
+	case LayoutArena:
+		if cap(a.buf)-len(a.buf) < len(b) { // size estimate too small: fall back (keeps earlier views valid)
+			return cp(b)
+		}
+		off := len(a.buf)
+		a.buf = append(a.buf, b...)
+		return a.buf[off : off+len(b)] // capacity deliberately reaches into the fields that follow
+	case LayoutSpare:
+		o := make([]byte, len(b), len(b)+8)
+		copy(o, b)
+		sp := o[len(b):cap(o)]
+		for i := range sp {
+			sp[i] = 0xEE
+		}
+		return o
+	}
+	return cp(b)
+}
+
+func absSize(ps []abs.Payload) int {
+	n := 0
+	for _, p := range ps {
+		n += len(p.Data)
+		switch {
+		case p.SA != nil:
+			for _, pr := range p.SA.Proposals {
+				n += len(pr.SPI)
+				for _, t := range pr.Transforms {
+					n += len(t.AttrBytes)
+				}
+			}
+		case p.KE != nil:
+			n += len(p.KE.Data)
+		case p.ID != nil:
+			n += len(p.ID.Data)
+		case p.Cert != nil:
+			n += len(p.Cert.Data)
+		case p.Auth != nil:
+			n += len(p.Auth.Data)
+		case p.Notify != nil:
+			n += len(p.Notify.SPI) + len(p.Notify.Data)
+		case p.TS != nil:
+			for _, s := range p.TS.Sel {
+				n += len(s.StartAddr) + len(s.EndAddr)
+			}
+		case p.CP != nil:
+			for _, at := range p.CP.Attrs {
+				n += len(at.Value)
+			}
+		case p.SK != nil:
+			n += len(p.SK.Data)
+		case p.EAP != nil && p.EAP.Method != nil:
+			n += len(p.EAP.Method.Data) + len(p.EAP.Method.VendorData)
+		}
+	}
+	return n
+}
+
+func layoutOf(ps []abs.Payload) int {
+	h := len(ps)
+	for _, p := range ps {
+		h = h*31 + int(p.Kind)
+	}
+	h += absSize(ps)
+	return h % nLayouts
+}
+
 // BuildMsg makes library objects from an abstract message through exported
 // struct fields (EAP-AKA' through NewEapAkaPrime + SetAttr).
 func BuildMsg(m *abs.Msg) (*message.IKEMessage, error) {
-	pl, err := BuildPayloads(m.Payloads)
+	pl, err := buildPayloads(m.Payloads, newArena(layoutOf(m.Payloads)+int(m.MsgID%3), absSize(m.Payloads)))
 	if err != nil {
 		return nil, err
 	}
@@ -37,9 +141,16 @@ func BuildMsg(m *abs.Msg) (*message.IKEMessage, error) {
 }
 
 func BuildPayloads(ps []abs.Payload) (message.IKEPayloadContainer, error) {
+	return buildPayloads(ps, newArena(layoutOf(ps), absSize(ps)))
+}
+
+func buildPayloads(ps []abs.Payload, a *arena) (message.IKEPayloadContainer, error) {
 	var c message.IKEPayloadContainer
+	if a.mode != LayoutPrivate {
+		c = make(message.IKEPayloadContainer, 0, len(ps)+3)
+	}
 	for _, p := range ps {
-		lp, err := BuildPayload(p)
+		lp, err := buildPayload(p, a)
 		if err != nil {
 			return nil, err
 		}
@@ -49,6 +160,10 @@ func BuildPayloads(ps []abs.Payload) (message.IKEPayloadContainer, error) {
 }
 
 func BuildTransform(t abs.Transform) *message.Transform {
+	return buildTransform(t, newArena(LayoutPrivate, 0))
+}
+
+func buildTransform(t abs.Transform, a *arena) *message.Transform {
 	lt := &message.Transform{TransformType: t.Type, TransformID: t.ID}
 	if t.HasAttr {
 		lt.AttributePresent = true
@@ -58,16 +173,20 @@ func BuildTransform(t abs.Transform) *message.Transform {
 			lt.AttributeValue = t.AttrVal
 		} else {
 			lt.AttributeFormat = 0
-			lt.VariableLengthAttributeValue = cp(t.AttrBytes)
+			lt.VariableLengthAttributeValue = a.bytes(t.AttrBytes)
 		}
 	}
 	return lt
 }
 
 func BuildProposal(pr abs.Proposal) *message.Proposal {
-	lp := &message.Proposal{ProposalNumber: pr.Num, ProtocolID: pr.Proto, SPI: cp(pr.SPI)}
+	return buildProposal(pr, newArena(LayoutPrivate, 0))
+}
+
+func buildProposal(pr abs.Proposal, a *arena) *message.Proposal {
+	lp := &message.Proposal{ProposalNumber: pr.Num, ProtocolID: pr.Proto, SPI: a.bytes(pr.SPI)}
 	for _, t := range pr.Transforms {
-		lt := BuildTransform(t)
+		lt := buildTransform(t, a)
 		switch t.Type {
 		case 1:
 			lp.EncryptionAlgorithm = append(lp.EncryptionAlgorithm, lt)
@@ -84,13 +203,72 @@ func BuildProposal(pr abs.Proposal) *message.Proposal {
 	return lp
 }
 
+// poolSA re-homes the transform lists of all proposals of one SA: in LayoutArena one pool per transform type
+// (the lists of proposal 1, 2, 3 ... are consecutive views, each with capacity reaching into the next); in
+// LayoutSpare every list gets spare capacity holding a marker transform that is NOT part of the proposal.
+func poolSA(sa *message.SecurityAssociation, a *arena) {
+	if a.mode == LayoutPrivate {
+		return
+	}
+	lists := func(p *message.Proposal) []*message.TransformContainer {
+		return []*message.TransformContainer{&p.EncryptionAlgorithm, &p.PseudorandomFunction, &p.IntegrityAlgorithm,
+			&p.DiffieHellmanGroup, &p.ExtendedSequenceNumbers}
+	}
+	if a.mode == LayoutSpare {
+		for _, p := range sa.Proposals {
+			for _, l := range lists(p) {
+				if len(*l) == 0 {
+					continue
+				}
+				n := make(message.TransformContainer, len(*l), len(*l)+2)
+				copy(n, *l)
+				sp := n[len(n):cap(n)]
+				for i := range sp {
+					sp[i] = &message.Transform{TransformType: 0xEE, TransformID: 0xEEEE}
+				}
+				*l = n
+			}
+		}
+		return
+	}
+	for ti := 0; ti < 5; ti++ {
+		total := 0
+		for _, p := range sa.Proposals {
+			total += len(*lists(p)[ti])
+		}
+		if total == 0 {
+			continue
+		}
+		pool := make(message.TransformContainer, 0, total)
+		for _, p := range sa.Proposals {
+			l := lists(p)[ti]
+			if len(*l) == 0 {
+				continue
+			}
+			off := len(pool)
+			pool = append(pool, *l...)
+			*l = pool[off : off+len(*l)] // capacity reaches into the next proposal's list
+		}
+	}
+}
+
 func BuildPayload(p abs.Payload) (message.IKEPayload, error) {
+	one := []abs.Payload{p}
+	return buildPayload(p, newArena(layoutOf(one), absSize(one)))
+}
+
+func buildPayload(p abs.Payload, a *arena) (message.IKEPayload, error) {
+	cp := a.bytes
 	switch p.Kind {
 	case abs.PSA:
 		sa := &message.SecurityAssociation{}
-		for _, pr := range p.SA.Proposals {
-			sa.Proposals = append(sa.Proposals, BuildProposal(pr))
+		if a.mode != LayoutPrivate {
+			sa.Proposals = make(message.ProposalContainer, 0, len(p.SA.Proposals)+2)
 		}
+		for _, pr := range p.SA.Proposals {
+			sa.Proposals = append(sa.Proposals, buildProposal(pr, a))
+		}
+		poolSA(sa, a)
 		return sa, nil
 	case abs.PKE:
 		return &message.KeyExchange{DiffieHellmanGroup: p.KE.Group, KeyExchangeData: cp(p.KE.Data)}, nil
@@ -111,12 +289,18 @@ func BuildPayload(p abs.Payload) (message.IKEPayload, error) {
 			SPI: cp(p.Notify.SPI), NotificationData: cp(p.Notify.Data)}, nil
 	case abs.PDelete:
 		d := &message.Delete{ProtocolID: p.Delete.Proto, SPISize: p.Delete.SPISize, NumberOfSPI: p.Delete.Num}
+		if a.mode != LayoutPrivate && len(p.Delete.SPIs) > 0 {
+			d.SPIs = make([]uint32, 0, len(p.Delete.SPIs)+2)
+		}
 		d.SPIs = append(d.SPIs, p.Delete.SPIs...)
 		return d, nil
 	case abs.PVendor:
 		return &message.VendorID{VendorIDData: cp(p.Data)}, nil
 	case abs.PTSi, abs.PTSr:
 		var sel message.IndividualTrafficSelectorContainer
+		if a.mode != LayoutPrivate {
+			sel = make(message.IndividualTrafficSelectorContainer, 0, len(p.TS.Sel)+2)
+		}
 		for _, s := range p.TS.Sel {
 			sel = append(sel, &message.IndividualTrafficSelector{TSType: s.Type, IPProtocolID: s.Proto,
 				StartPort: s.StartPort, EndPort: s.EndPort, StartAddress: cp(s.StartAddr), EndAddress: cp(s.EndAddr)})
@@ -127,13 +311,16 @@ func BuildPayload(p abs.Payload) (message.IKEPayload, error) {
 		return &message.TrafficSelectorResponder{TrafficSelectors: sel}, nil
 	case abs.PCP:
 		c := &message.Configuration{ConfigurationType: p.CP.Type}
-		for _, a := range p.CP.Attrs {
+		if a.mode != LayoutPrivate {
+			c.ConfigurationAttribute = make(message.ConfigurationAttributeContainer, 0, len(p.CP.Attrs)+2)
+		}
+		for _, at := range p.CP.Attrs {
 			c.ConfigurationAttribute = append(c.ConfigurationAttribute,
-				&message.IndividualConfigurationAttribute{Type: a.Type, Value: cp(a.Value)})
+				&message.IndividualConfigurationAttribute{Type: at.Type, Value: cp(at.Value)})
 		}
 		return c, nil
 	case abs.PEAP:
-		e, err := BuildEAP(p.EAP)
+		e, err := buildEAP(p.EAP, a)
 		if err != nil {
 			return nil, err
 		}
@@ -145,6 +332,11 @@ func BuildPayload(p abs.Payload) (message.IKEPayload, error) {
 }
 
 func BuildEAP(e *abs.EAP) (*eap.EAP, error) {
+	return buildEAP(e, newArena(LayoutPrivate, 0))
+}
+
+func buildEAP(e *abs.EAP, a *arena) (*eap.EAP, error) {
+	cp := a.bytes
 	le := &eap.EAP{Code: eap.EapCode(e.Code), Identifier: e.ID}
 	if e.Method == nil {
 		return le, nil
@@ -160,17 +352,17 @@ func BuildEAP(e *abs.EAP) (*eap.EAP, error) {
 	case abs.MExpanded:
 		le.EapTypeData = &eap.EapExpanded{VendorID: m.VendorID, VendorType: m.VendorType, VendorData: cp(m.VendorData)}
 	case abs.MAkaPrime:
-		a := eap.NewEapAkaPrime(eap.EapAkaSubtype(m.AKA.Subtype))
+		ak := eap.NewEapAkaPrime(eap.EapAkaSubtype(m.AKA.Subtype))
 		for _, at := range m.AKA.Attrs {
-			v := at.Value
+			v := cp(at.Value)
 			if v == nil {
 				v = []byte{}
 			}
-			if err := a.SetAttr(eap.EapAkaPrimeAttrType(at.Type), v); err != nil {
+			if err := ak.SetAttr(eap.EapAkaPrimeAttrType(at.Type), v); err != nil {
 				return nil, fmt.Errorf("bridge: SetAttr(%d, %d octets): %v", at.Type, len(at.Value), err)
 			}
 		}
-		le.EapTypeData = a
+		le.EapTypeData = ak
 	default:
 		return nil, fmt.Errorf("bridge: cannot build EAP method %d", m.Type)
 	}
